@@ -257,11 +257,12 @@ func runC09(s *c09Scenario, faultIdx, faultKind int) *c09Run {
 			if !tainted {
 				violate("node-finalizer:not-cordoned", "Node finalizer removed although the node does not carry %s:NoSchedule", v1.DisruptedTaintKey)
 			}
+			// the deadline by the harness' own reading: the NodeClaim's deletion instant plus its terminationGracePeriod
+			// (whole seconds, as the annotation stores it); what Karpenter wrote into the annotation is not trusted
 			var termination *time.Time
-			if ts, ok := nc.Annotations[v1.NodeClaimTerminationTimestampAnnotationKey]; ok {
-				if t, err := time.Parse(time.RFC3339, ts); err == nil {
-					termination = &t
-				}
+			if nc.Spec.TerminationGracePeriod != nil && nc.DeletionTimestamp != nil {
+				t := nc.DeletionTimestamp.Add(nc.Spec.TerminationGracePeriod.Duration).Truncate(time.Second)
+				termination = &t
 			}
 			undrainableVolumes := map[string]bool{}
 			for _, p := range pods {
